@@ -1,4 +1,5 @@
 import IceProofs.Framing
+import IceTie.Framing
 /-!
 # C14 — ICE-TCP framing preserves packet boundaries
 
@@ -212,5 +213,47 @@ theorem C14_write_passes_monitor (connFails : Bool) (p : List UInt8) :
     rw [if_pos h]
     simp [write, h, obsOfWrite]
   · exact C14_write_ok connFails p (by omega)
+
+/-! ### code ties (T): `writeStreamingPacket` and `readStreamingPacket` (tcp_mux.go) are REGENERATED on every run (effect mode,
+`IceGen.T_Framing`; the two short-read loops cut out with their source text pinned) and proved equal to the model -/
+
+/-- the writer, for every packet whose length is a Go `int` and both outcomes of `conn.Write`: too long ⇒ rejected before
+anything is written; otherwise the 16-bit length field `uint16(len)`, the payload copied behind it, ONE `conn.Write`, and
+the result `n − 2` — i.e. the model's `write`: same first result, same error, the same number of writes, the length field
+`header` encodes -/
+theorem C14_code_write (connFails : Bool) (p : List UInt8) (h : p.length + 2 < 2 ^ 63) (n : Int64) :
+    IceGen.writeStreamingPacket (Int64.ofNat p.length) connFails n
+      = (if p.length > 65535 then ([], (0, "ErrShortBuffer"))
+         else ([IceTie.Framing.ePut (p.length % 65536), IceTie.Framing.eCopy, IceTie.Framing.eWrite],
+               if connFails then (0, "err") else (n - 2, "nil"))) ∧
+    IceTie.Framing.outOf (IceGen.writeStreamingPacket (Int64.ofNat p.length) connFails (Int64.ofNat (encode p).length))
+      = (((write connFails p).n : Int), (write connFails p).err, (write connFails p).wire.length,
+         if p.length > 65535 then [] else [decodeLen (header p.length)]) :=
+  ⟨IceTie.Framing.writeStreamingPacket_tie p.length (by omega) connFails n,
+   IceTie.Framing.writeStreamingPacket_model connFails p h⟩
+
+/-- the reader, for every segmentation of every stream, every capacity and terminal error: with the header loop = `fill segs 2`,
+the declared length = `decodeLen` of the two bytes and the body loop = `fill` for that many bytes, the regenerated function
+returns what the model's `readPacket` returns (`(0, err)` / `(length, io.ErrShortBuffer)` / the bytes read), and it enters
+the body loop exactly when the header was read and the declared length fits the buffer -/
+theorem C14_code_read (cap : Nat) (hc : cap < 2 ^ 63) (e : IoErr) (segs : Segs) :
+    let f1 := fill segs 2
+    let len := decodeLen (f1.1.getD [])
+    let f2 := fill f1.2.1 len
+    let g := IceGen.readStreamingPacket f1.1.isNone (Int64.ofNat len) (Int64.ofNat cap) f2.1.isNone
+                (Int64.ofNat (f2.1.getD []).length)
+    IceTie.Framing.resOf g e (f2.1.getD []) = (readPacket cap e segs).1 ∧
+    (g.1.contains IceTie.Framing.eFillBody = (f1.1.isSome && decide (len ≤ cap))) :=
+  IceTie.Framing.readStreamingPacket_model cap hc e segs
+
+/-- non-vacuity: 65535 bytes are framed, 65536 rejected; a frame of declared length 9 into a buffer of capacity 8 -/
+example : IceGen.writeStreamingPacket 65535 false 65537
+      = ([IceModel.Eff.call "putLength" [IceModel.Val.n 65535], IceModel.Eff.call "copyPayloadAt2" [],
+          IceModel.Eff.call "write" []], (65535, "nil")) ∧
+    IceGen.writeStreamingPacket 65536 false 0 = ([], (0, "ErrShortBuffer")) ∧
+    IceGen.readStreamingPacket false 9 8 false 9 = ([IceModel.Eff.call "fillHeader" []], (9, "ErrShortBuffer")) ∧
+    IceGen.readStreamingPacket false 8 8 false 8
+      = ([IceModel.Eff.call "fillHeader" [], IceModel.Eff.call "fillBody" []], (8, "nil")) ∧
+    IceGen.readStreamingPacket true 8 8 false 8 = ([IceModel.Eff.call "fillHeader" []], (0, "err")) := by decide
 
 end IceProps.C14
